@@ -549,6 +549,10 @@ func (p *c09) runAliasChain(res *fw.Result, prog *Program, sig string) {
 }
 
 func (p *c09) Rule() string {
+	return p.ruleBase() + " " + "Round 12: block(name) with the name carried by a string, a defined string type, a safe value (plain, of a defined string, nested), a Stringer by value and by pointer, a capture and a concatenation, in a three-level chain whose parent is named the same way; expected output written out by hand."
+}
+
+func (p *c09) ruleBase() string {
 	return "bounded-exhaustive configurations: chain length L x block names B x for every non-root level and block one of {absent, override, override calling parent() - half of those with a nested block of their own in front of the call} (3^((L-1)B) patterns) x root layout {flat, blocks nested in b0, each block inside a 2-iteration loop} x use at one level {none, plain import of the last block name whose body calls parent(), aliased import 'orig0 as b0', the same library imported by the first child with that alias AND by the leaf without (L>=3), two use statements in one template (B>=2), a chain of aliases 'orig0 as orig1, orig1 as b0' in one statement - either reading of the second alias is accepted, but the same one in each of 8 renders}; half of the parent()-calling bodies, and every imported one, call parent() twice, a third render the next block through block() in front of parent(); children have a stray if / for / filter section / capture outside their blocks; quick: L<=3, B<=2, all layouts and use variants; thorough: full product L<=4, B<=4 on the flat layout (3^12 patterns at the top size) and L<=4, B<=3 for the other layouts/use variants. Parents are named by an expression ('t' ~ '0') in a third of the cases; every child has content outside blocks that must not render. Random: larger shapes with block() calls, a root-only block in a loop with a nested block overridden by the leaf. Every block body prints a unique marker and calls a recording function; oracle = reference model output and the callback log including Context.Name() (must be the defining template, also inside parent() bodies). Non-trivial = chain >= 2 with >= 1 override; enumerated configurations are distinct by construction."
 }
 
